@@ -211,6 +211,7 @@ func TestRuleValues(t *testing.T) {
 	maxRank := 3
 	bases := shapes(0, maxRank, 3)
 	bases = append(bases, shapes(4, 4, 2)...) // two leading dimensions: the rank-dependent branches of the rules' helpers
+	bases = append(bases, []int{4}, []int{5}, []int{2, 4}, []int{4, 3}, []int{3, 5}) // fibres longer than 3 (seed C02-4: a factor that is 0 from n = 4 on)
 	for _, c := range ruleCases(rng) {
 		for _, b := range bases {
 			if !thorough() && len(b) >= 3 && rng.Intn(3) != 0 {
